@@ -79,6 +79,10 @@ func fullQueueOnce(fault string, conns, per int) (res fullQueueResult) {
 	}
 	time.Sleep(50 * time.Millisecond)
 	res.NodeSaw = len(node.Records())
+	// From now on the backend answers again - BEFORE the fault: a command that reaches it over a new connection right
+	// after the fault must not be swallowed by the simulated silence (that would be the simulator losing the request,
+	// not the proxy). The commands swallowed so far stay unanswered: they belong to the connection that is about to go.
+	node.SetSilent(false)
 	switch fault {
 	case "reset":
 		node.ResetConns(true)
@@ -88,7 +92,6 @@ func fullQueueOnce(fault string, conns, per int) (res fullQueueResult) {
 		stopped = true
 		go sut.StopWithin(px.P, 10*time.Second)
 	}
-	node.SetSilent(false)
 	var mu sync.Mutex
 	var wg sync.WaitGroup
 	for i, c := range cs {
